@@ -705,3 +705,56 @@ where
     io.output::<Sh>("y", &y);
     io.out
 }
+
+/// The crate's own LU decomposition (feature `linalg`) over dual entries. kind `lu;<n>;<op>` with
+/// op in solve | det | inverse. Inputs A{i}{j}, b{i}; a singular report sets the flag `singular`.
+pub fn run_lu<F: Fl, Sh: Shape<F>>(kind: &str, pres: u64) -> CaseOut
+where
+    Sh::N: Copy,
+{
+    use ndarray::{Array1, Array2};
+    use num_dual::linalg::LU;
+    let parts: Vec<&str> = kind.split(';').collect();
+    let n: usize = parts[1].parse().unwrap();
+    let op = parts[2];
+    let mut io = Io::<F>::new(pres);
+    let mut a = Array2::<Sh::N>::from_elem((n, n), Sh::N::from(F::lit(0.0)));
+    for i in 0..n {
+        for j in 0..n {
+            a[(i, j)] = io.input::<Sh>(&format!("A{i}{j}"));
+        }
+    }
+    let lu = LU::<Sh::N, F>::new(a);
+    match lu {
+        Err(_) => io.flag("singular", true),
+        Ok(lu) => {
+            io.flag("singular", false);
+            match op {
+                "solve" => {
+                    let mut b = Array1::<Sh::N>::from_elem(n, Sh::N::from(F::lit(0.0)));
+                    for i in 0..n {
+                        b[i] = io.input::<Sh>(&format!("b{i}"));
+                    }
+                    let x = lu.solve(&b);
+                    for i in 0..n {
+                        io.output::<Sh>(&format!("x{i}"), &x[i]);
+                    }
+                }
+                "det" => {
+                    let d = lu.determinant();
+                    io.output::<Sh>("det", &d);
+                }
+                "inverse" => {
+                    let inv = lu.inverse();
+                    for i in 0..n {
+                        for j in 0..n {
+                            io.output::<Sh>(&format!("inv{i}{j}"), &inv[(i, j)]);
+                        }
+                    }
+                }
+                _ => panic!("lu op"),
+            }
+        }
+    }
+    io.out
+}
